@@ -630,6 +630,10 @@ pub struct OutCfg {
     /// the peer may (once) send something that ends the connection on an error path: undecodable bytes,
     /// a protocol-violating packet, a DISCONNECT (C08)
     pub inbound_faults: bool,
+    /// C05 only: send futures may also be dropped after their packet was written (awaiting the acknowledgement);
+    /// the slot stays occupied until the peer's final acknowledgement, so this is a safety-only variant
+    /// (an abandoned QoS 2 exchange holds its slot for ever, which the liveness oracle must not judge)
+    pub cancel_inflight: bool,
 }
 
 pub const J_WINDOW: u32 = 1;
@@ -1328,6 +1332,14 @@ impl Scenario for Out {
             drop(a);
             let parked = self.parked();
             let a = self.app.borrow();
+            if self.cfg.cancel_inflight {
+                // any running sender task, whatever it is waiting for
+                for j in 0..a.len() {
+                    if a[j].started && !a[j].done && !a[j].cancelled && a[j].handle.is_some() && !parked.contains(&j) {
+                        v.push(Ev::Cancel(j as u8));
+                    }
+                }
+            }
             for j in parked {
                 let q2 = matches!(self.cfg.senders[j], SK::Q2Rel | SK::Q2Drop | SK::Q2Hold);
                 // with the write side blocked an encoded PUBLISH may sit in the write buffer: not on the wire yet,
